@@ -628,6 +628,13 @@ def register_sort(R):
     def st_sigma(E, v):
         """the row permutation: the local `id_map` in the carrier, a ghost (Skolem) array at call sites"""
         im = v.get("id_map")
+        if not isinstance(im, SArr):
+            # whatever the local is called: the index array the carrier's call of sort_nodes_impl returned on this path
+            for nm, cv in reversed(E.call_log):
+                res = cv.get("__result__")
+                if nm.split(".")[-1] == "sort_nodes_impl" and isinstance(res, (tuple, list)) and len(res) == 2 and isinstance(res[1], SArr):
+                    im = res[1]
+                    break
         if isinstance(im, SArr):
             return im.arr, sni_inv(E, im)
         key = ("sort-skolem", v["tree"].uid, len(E.call_log))
